@@ -367,7 +367,7 @@ func c06Scenario() *hist.Scenario {
 
 func c06Alphabet() []hist.Op {
 	var ops []hist.Op
-	for _, name := range []string{"h", "hh", "text", "title", "href", "hrefp", "hrefq", "rc", "tt", "rec", "u1", "u2", "broken", "broken2"} {
+	for _, name := range []string{"h", "hh", "text", "title", "href", "hrefp", "hrefq", "rc", "tt", "rec", "u1", "u2", "broken", "broken2", "open"} {
 		ops = append(ops, hist.Op{Kind: hist.Exec, H: 0, Form: 2, Name: name, Arg: 0})
 	}
 	for _, name := range []string{"h", "title", "href", "hrefp"} {
